@@ -306,7 +306,7 @@ func (e *emitter) add(v Val, s Spec, o Obs) {
 // addShared: a value in which an instance occurs at several positions, with the identities, for the
 // model of the recursion guard (format_value_g); capped.
 func (e *emitter) addShared(v Val, s Spec, o Obs) {
-	limit := 600
+	limit := 450
 	if e.cfg.Thorough() {
 		limit = 3000
 	}
